@@ -11,7 +11,7 @@ Definition fitem_nonempty (bg : list step) (it : fitem) : bool :=
   end.
 
 Lemma unselected_sitem_skipped cfg st bg anc it :
-  aborted st = false -> sitem_should_run cfg anc it = false -> sitem_nonempty bg it = true ->
+  aborted st = false -> sitem_any_sel cfg anc it = false -> sitem_nonempty bg it = true ->
   exists res ev, run_sitem cfg st bg anc it = (st, res, false, ev) /\
     item_status res = skipped /\ allq ev = true.
 Proof.
@@ -28,7 +28,7 @@ Qed.
 
 Lemma unselected_fitems_skipped cfg bg hb anc items : forall st,
   aborted st = false ->
-  forallb (fun it => negb (fitem_should_run cfg anc it) && fitem_nonempty bg it) items = true ->
+  forallb (fun it => negb (fitem_runs cfg anc it) && fitem_nonempty bg it) items = true ->
   exists rs ev, run_fitems cfg st bg hb anc items false = (st, rs, false, ev) /\
     forallb (fun r => status_eqb (fitem_status r) skipped) rs = true /\ length rs = length items /\
     allq ev = true.
@@ -38,7 +38,7 @@ Proof.
   - cbn [forallb] in Hall. apply andb_true_iff in Hall as [H1 H2].
     apply andb_true_iff in H1 as [Hs Hn]. apply negb_true_iff in Hs.
     destruct (IH st Ha H2) as (rs & ev & E & A & B & Q).
-    destruct it as [i|rl]; cbn [run_fitem fitem_should_run fitem_nonempty] in *.
+    destruct it as [i|rl]; cbn [run_fitem fitem_runs fitem_nonempty] in *.
     + destruct (unselected_sitem_skipped cfg st bg anc i Ha Hs Hn) as (res & ev1 & E1 & S1 & Q1).
       rewrite E1. rewrite Ha. cbn [andb]. rewrite E.
       eexists; eexists; split; [reflexivity|]. cbn [forallb length fitem_status]. rewrite S1, A, B.
@@ -56,15 +56,16 @@ Theorem unselected_feature_is_skipped cfg st f :
   exists res ev, run_feature cfg st f = (st, res, false, ev) /\
     fr_status res = skipped /\ fr_hook_failed res = false /\ allq ev = true.
 Proof.
-  intros Ha Hs Hn. unfold run_feature. rewrite Hs. rewrite andb_false_r. cbn [orb].
+  intros Ha Hs Hn. unfold run_feature, feature_runs. rewrite Hs. rewrite andb_false_r. cbn [orb andb].
   unfold feature_should_run in Hs. apply orb_false_iff in Hs as [_ Hitems].
-  assert (Hall : forallb (fun it => negb (fitem_should_run cfg (f_tags f) it) &&
+  assert (Hall : forallb (fun it => negb (fitem_runs (items_cfg cfg false) (f_tags f) it) &&
                                      fitem_nonempty (opt_steps (f_bg f)) it) (f_items f) = true).
   { rewrite forallb_forall in *. intros x Hx. rewrite (Hn x Hx), andb_true_r. apply negb_true_iff.
+    apply fitem_runs_le. change (fitem_should_run (items_cfg cfg false) (f_tags f) x) with (fitem_should_run cfg (f_tags f) x).
     destruct (fitem_should_run cfg (f_tags f) x) eqn:Ex; [|reflexivity].
     assert (existsb (fitem_should_run cfg (f_tags f)) (f_items f) = true)
       by (apply existsb_exists; exists x; auto). congruence. }
-  destruct (unselected_fitems_skipped cfg (opt_steps (f_bg f))
+  destruct (unselected_fitems_skipped (items_cfg cfg false) (opt_steps (f_bg f))
               (match f_bg f with Some _ => true | None => false end) (f_tags f) (f_items f)
               (push st) Ha Hall) as (rs & ev & E & A & B & Q).
   rewrite Ha. rewrite E. rewrite pop_push.
@@ -89,7 +90,7 @@ Theorem skipped_rule_contains_only_skipped_elements cfg st r anc inh fhb st' res
   forallb (fun x => status_eqb (item_status x) skipped) (rr_items res) = true.
 Proof.
   unfold run_rule. cbv zeta.
-  set (hc := negb (c_dry cfg) && rule_should_run cfg anc r).
+  set (hc := negb (c_dry cfg) && rule_runs cfg anc r).
   match goal with |- context [if hc then ?A else ?B] => destruct (if hc then A else B) as [[st1 hf] evb] end.
   match goal with |- context [run_sitems ?a ?b ?c0 ?d ?e ?f] =>
     destruct (run_sitems a b c0 d e f) as [[[st2 rs] itf] evi] eqn:E3 end.
@@ -125,4 +126,49 @@ Proof.
   - unfold container_compute. destruct hf2; [discriminate|]. intros H.
     apply container_skipped_iff in H. rewrite forallb_forall in *. intros x Hx.
     apply H. apply in_map. exact Hx.
+Qed.
+
+(* ---- explicit exclusion (element.skip() from the feature's before_feature hook) *)
+Lemma excluded_none cfg eff : (forall t, c_excl cfg t = false) -> excluded cfg eff = false.
+Proof. intros H. unfold excluded. induction eff as [|t r IH]; cbn; [reflexivity|]. now rewrite H, IH. Qed.
+
+Lemma sel_without_exclusions cfg eff : (forall t, c_excl cfg t = false) -> sel cfg eff = c_expr cfg eff.
+Proof. intros H. unfold sel. rewrite (excluded_none _ _ H). apply andb_true_r. Qed.
+
+(* before the hook ran (dry run, feature not selected) or without a before_feature hook nothing is excluded *)
+Lemma items_cfg_off cfg hc t :
+  hc && c_hooks cfg HBeforeFeature = false -> c_excl (items_cfg cfg hc) t = false.
+Proof. cbn. intros ->. reflexivity. Qed.
+
+Lemma items_cfg_on cfg t :
+  c_hooks cfg HBeforeFeature = true -> c_excl (items_cfg cfg true) t = c_excl cfg t.
+Proof. cbn. intros ->. reflexivity. Qed.
+
+Theorem excluded_rule_is_skipped cfg st r anc inh fhb :
+  aborted st = false ->
+  excluded cfg (r_tags r ++ anc) = true ->
+  forallb (sitem_nonempty (inh ++ opt_steps (r_bg r))) (r_items r) = true ->
+  exists res ev, run_rule cfg st r anc inh fhb = (st, res, false, ev) /\
+    rr_status res = skipped /\ rr_hook_failed res = false /\ allq ev = true.
+Proof.
+  intros Ha Hx Hn. apply unselected_rule_is_skipped; try assumption.
+  unfold rule_runs. rewrite Hx. apply andb_false_r.
+Qed.
+
+(* a feature that its own before_feature hook excluded: the hooks of the feature itself have
+   been called, everything inside is skipped and calls nothing *)
+Theorem excluded_feature_items_are_skipped cfg bg hb f : forall st,
+  aborted st = false ->
+  excluded cfg (f_tags f) = true ->
+  forallb (fitem_nonempty bg) (f_items f) = true ->
+  exists rs ev, run_fitems cfg st bg hb (f_tags f) (f_items f) false = (st, rs, false, ev) /\
+    forallb (fun r => status_eqb (fitem_status r) skipped) rs = true /\ allq ev = true.
+Proof.
+  intros st Ha Hx Hn.
+  destruct (unselected_fitems_skipped cfg bg hb (f_tags f) (f_items f) st Ha) as (rs & ev & E & A & _ & Q).
+  { rewrite forallb_forall in *. intros x Hin. rewrite (Hn x Hin), andb_true_r. apply negb_true_iff.
+    destruct x as [i|r]; cbn [fitem_runs].
+    - now apply sitem_any_sel_excluded.
+    - unfold rule_runs. rewrite (excluded_inherited _ (r_tags r) _ Hx). apply andb_false_r. }
+  exists rs, ev. auto.
 Qed.
